@@ -149,7 +149,8 @@ pub const RESERVED: &str = "--bpaf-complete-rev=8";
 pub fn c09_alphabet(l: &Level) -> Vec<Tok> {
     // `--bpaf-complete-rev=8` is the parser's own reserved option: right of `--` it is a word
     // like any other (left of it the run turns into a completion request: not judged)
-    let mut out = toks(&["v", "w", "--", "-", "--help", "-z", RESERVED]);
+    // (the empty item is a word like any other)
+    let mut out = toks(&["v", "w", "", "--", "-", "--help", "-z", RESERVED]);
     l.walk(
         &mut |lv, _| {
             for n in &lv.named {
